@@ -15,7 +15,9 @@ feat="serde,ndarray-bindings,nalgebra-bindings,verif"
 res() { echo "SEEDVERIFY $1"; }
 if cargo test --offline --test demo --features "$feat" >"$work/demo0.log" 2>&1; then res "demo-on-unchanged: PASS"; a=1; else res "demo-on-unchanged: FAIL (see tail)"; tail -15 "$work/demo0.log"; a=0; fi
 if git apply --whitespace=nowarn "$sd/patch.diff"; then res "patch-applies: yes"; else res "patch-applies: NO"; exit 3; fi
+mv tests/demo.rs "$work/demo.rs.keep"
 if cargo test --offline >"$work/suite.log" 2>&1; then res "existing-suite-with-patch: PASS ($(grep -c '\.\.\. ok' "$work/suite.log") ok)"; b=1; else res "existing-suite-with-patch: FAIL"; grep -E 'FAILED|failed|error' "$work/suite.log" | head -10; b=0; fi
+mv "$work/demo.rs.keep" tests/demo.rs
 if cargo build --offline --features "$feat" >"$work/build.log" 2>&1; then res "builds-with-all-features: yes"; else res "builds-with-all-features: NO"; grep -E '^error' -A6 "$work/build.log" | head -20; fi
 if cargo test --offline --test demo --features "$feat" >"$work/demo1.log" 2>&1; then res "demo-with-patch: PASS (demo does not demonstrate the break)"; c=0; else res "demo-with-patch: FAIL (as required)"; grep -E 'panicked|assert' "$work/demo1.log" | head -4 | cut -c1-300; c=1; fi
 if [ $a = 1 ] && [ $b = 1 ] && [ $c = 1 ]; then res "CONFIRMED"; rc=0; else res "NOT-CONFIRMED"; rc=1; fi
